@@ -863,7 +863,7 @@ package bkl
 //@     invariant (forall ((id String)) (=> (not (= (select parents id) 0)) (= (Document.ID (select parents id)) id)))
 //@   loop 2
 //@     invariant (forall ((id String)) (= (select parents id)
-//@                  (ite (select visited id) (select parent_AllParents id) (select parents@loop id))))
+//@                  (ite (select visited id) (select ranged id) (select parents@loop id))))
 //
 //@ func Document.DataAsMap(d) (res)
 //@   ensures (= res (ite ((_ is VMap) (Document.Data d)) (Document.Data d) VNil))
